@@ -292,6 +292,7 @@ def generate(thm, all_contracts=None):
     opts = dict(thm.options)
     opts["loopspecs"] = loopspecs_of(thm)
     opts["thm"] = thm
+    opts["deadline"] = time.time() + thm.options.get("gen_budget_s", float(os.environ.get("VERIF_GEN_BUDGET_S", "600")))
     from . import specs
     opts["extra_rules"] = specs.unfold_rules(thm)
     contracts = all_contracts
@@ -340,12 +341,16 @@ def generate(thm, all_contracts=None):
         fr.locals["result"] = outcome[1]
         whens = []
         for case in thm.cases:
-            w = formula(it, case.when, fr)
+            if case.when.strip() == "otherwise":
+                w = z3.simplify(z3.Not(z3.Or(*whens))) if whens else z3.BoolVal(True)
+            else:
+                w = formula(it, case.when, fr)
             whens.append(w)
             if z3.is_false(w):
                 continue
             exp_raise = case.raises is not None
-            if outcome[0] == "return" and not exp_raise:
+            either = exp_raise and bool(case.clauses())      # "raises one of these, or returns a value satisfying ensures"
+            if outcome[0] == "return" and (not exp_raise or either):
                 for cname, clause in case.clauses():
                     gl = formula(it, clause, fr)
                     ctx.oblige(f"{thm.name}.{case.name}.{cname}", z3.Implies(w, gl),
